@@ -109,7 +109,8 @@ extern "C" void harness(void)
 #elif VF_OP == 3
   {
     unsigned need[4];
-    for (int i = 0; i < VF_N; ++i) need[i] = vf_needle(names[i]);
+    for (int i = 0; i < VF_N; ++i) need[i] = vf_needle(names[i]);   // watch index i
+    vf_want_ord = true;
     delete A; A = nullptr;
     unsigned want_mask = 0; bool any = false;
     for (int i = 0; i < VF_N; ++i) if (listedA(i, gone)) { want_mask |= need[i]; any = true; }
@@ -118,6 +119,10 @@ extern "C" void harness(void)
     {
       VCLAIM(6, !vf_last.fatal, "C06.teardown_report_nonfatal");
       VCLAIM(6, vf_last.mask == want_mask, "C06.teardown_lists_exactly_pending");
+      for (int i = 0; i < VF_N; ++i)
+        for (int j = i + 1; j < VF_N; ++j)
+          if (listedA(i, gone) && listedA(j, gone))
+            VCLAIM(6, (vf_last.ord & vf_ord(i, j)) != 0, "C06.teardown_lists_in_registration_order");
     }
     // the handles survive their sequence and are detached
     for (int i = 0; i < VF_N; ++i)
